@@ -762,7 +762,6 @@ var corpus = []string{
 	"const C = 0x1p-2000 * 0x1p2000",
 	"const C = float64(9007199254740993) == 9007199254740992",
 	"const (\n\tc float32 = 16777217\n\tC = c == 16777216\n)",
-	"const C = int64(-9223372036854775808) / -1",
 	"const C = 9223372036854775807 + 1",
 	"const C = -(-9223372036854775808)",
 	"const C = ^uint64(0)",
